@@ -424,6 +424,9 @@ def stream_invariant(ctx, rule):
         for key, s in sites.items():
             if s.failed and s.kind in ("index", "slice") and bad is None:
                 bad = "after %s the next poll can reach an unprovable index operation (%s): %s" % (kind, key.split("|")[-2] if "|" in key else key, s.failed[0][0])
+            if s.failed and s.kind == "assert" and s.op.startswith("Overflow(Sub)") and bad is None and "ops=0," in s.failed[0][1]:
+                bad = ("after %s the next poll subtracts a piece length from the exhausted owed-bytes counter: it panics in debug builds and "
+                       "emits the piece (data after the terminal event) in release builds" % kind)
         inst = "after %s (%s)" % (kind, label)
         if bad:
             ctx.violation(rule, "%s|absorb|%s" % (rule, inst), "terminal state is not absorbing: " + bad, where=_last_where(o))
@@ -603,14 +606,24 @@ def stream_frame(ctx, rule):
     adt, roles, pn = find_stream(ctx)
     outs = run_case(ctx, adt, roles, pn, 1, True)
     n = 0
+    nend = 0
     for o in outs:
-        if o.kind != "return" or not cons_zone(o).feasible():
+        if o.kind not in ("return", "backedge") or not cons_zone(o).feasible():
             continue
-        kind, payload = poll_shape(o.value)
+        kind, payload = poll_shape(o.value) if o.kind == "return" else ("loop", None)
         polls = [e for e in o.events if e["k"] == "call" and "poll_next" in (e["callee"].get("path") or "") and e["fn"] == pn]
         if not polls:
             continue
         pr = polls[0]["result"]
+        if o.cons.variant_of(pr) == "Ready" and o.cons.variant_of(("payload", pr, "Ready", "0")) == "None":
+            # the current part ended: the position must advance, otherwise the same part is installed and sent again
+            stt = final_read(ctx, o, SELF, (("f", roles["state"]),))
+            adv = isinstance(stt, tuple) and stt[0] == "pack" and stt[1] != H
+            nend += 1
+            if not adv:
+                ctx.violation(rule, "%s|part-end-no-advance" % rule, "when the current part's stream ends the position stays at %s: the same part is installed and streamed again" % short(stt, 40),
+                              where=_last_where(o))
+            continue
         chunk = ("payload", ("payload", ("payload", pr, "Ready", "0"), "Some", "0"), "Ok", "0")
         from_cur = (kind == "Pending" and o.cons.variant_of(pr) == "Pending") or (kind == "Ok" and payload == chunk)
         if not from_cur:
@@ -636,3 +649,6 @@ def stream_frame(ctx, rule):
         else:
             ctx.ok(rule, "%s keeps the same part stream installed and the position unchanged" % inst)
     ctx.floor(rule, n, 2, what="rows that poll the current part and return Pending / data")
+    ctx.floor(rule + ".end", nend, 1, what="rows on which the current part ends")
+    if nend:
+        ctx.ok(rule, "end of the current part advances the position", detail={"rows": nend})
